@@ -5,6 +5,7 @@
    effect program (coq/gen/SettersGen.v); [atomic_prog] enumerates all its execution paths, where any
    call may raise, and demands that no store to the object precedes a possible raise. *)
 From Coq Require Import String List Bool.
+From MW Require Import Nodes Context.
 From MW Require Import Setters.
 From MW.gen Require Import SettersGen.
 Import ListNotations.
@@ -27,6 +28,13 @@ Proof. vm_compute. reflexivity. Qed.
 Theorem C18_attr_ws_quoted : forall ops s, attr_inv s -> attr_inv (attr_run s ops).
 Proof. exact attr_ws_quoted_lemma. Qed.
 
+(* an accepted assignment to a Wikicode-valued attribute puts the (parsed) value in one of the node's places:
+   the node then renders as  pre ++ text(value) ++ post  with pre, post independent of the value, i.e. the
+   assigned text appears exactly, in place, and the rest of the node's text is what it was *)
+Theorem C18_assigned_child_renders_in_place : forall F, node_hole F ->
+  exists pre post, forall v, str_node (F v) = (pre ++ str_code v ++ post)%list.
+Proof. exact node_hole_span. Qed.
+
 Print Assumptions C18_setters_atomic.
 Print Assumptions C18_setters_present.
 Print Assumptions C18_attr_ws_quoted.
@@ -37,3 +45,4 @@ Example C18_checker_discriminates :
   atomic_prog [MayRaise "int(v)"; If [Raise] []; Store "_x"] = true /\
   atomic_prog [Try [Store "_x"; MayRaise "f()"] [Return] []] = false.
 Proof. vm_compute. repeat split; reflexivity. Qed.
+Print Assumptions C18_assigned_child_renders_in_place.
